@@ -280,7 +280,7 @@ def gen_names(ck: Check, sb: Sandbox):
         if emit(n):
             yield "special", n
     rng = ck.rng
-    for _ in range(400 if ck.quick else 5000):
+    for _ in range(400 if ck.quick else 3000):
         k = rng.randrange(1, 7)
         n = spell([rng.choice(POOL) for _ in range(k)], rng.choice(PREFIXES), rng.choice(TRAILS))
         if emit(n):
@@ -346,11 +346,10 @@ def run(ck: Check) -> None:
             envs[spec] = Environment(loader=make_loader(sb, spec))
         return envs[spec]
 
-    intern = StrIntern()
-    cases, expected, meta = [], [], []
+    meta = []
     seen_sig = set()
     for cls, name in gen_names(ck, sb):
-        specs = list(always) + ([ck.rng.choice(sampled)] if ck.quick else ck.rng.sample(sampled, 3))
+        specs = list(always) + ([ck.rng.choice(sampled)] if ck.quick else ck.rng.sample(sampled, 2))
         for spec in specs:
             env = env_of(spec)
             s = observe(env, name, False)
@@ -379,14 +378,29 @@ def run(ck: Check) -> None:
                                  f"{spec} name {name[:120]!r}: sync {s} async {a}",
                                  {"type": "name", "spec": list(spec), "name": name, "mode": "both", "outcome": [list(s), list(a)],
                                   "bad": "sync-async-differ"})
-            cases.append(g_case(sb, spec, name, intern))
-            expected.append(g_obs(s, intern))
             meta.append((spec, name, s, explained))
     ck.sample({"loader": meta[len(meta) // 3][0], "name": meta[len(meta) // 3][1][:80], "outcome": meta[len(meta) // 3][2]})
     ck.sample({"loader": meta[-1][0], "name": meta[-1][1][:80], "outcome": meta[-1][2]})
 
-    mm = ck.coq_mismatches("names", IMPORTS, "run_case", "obs_eqb", "case", "obs", cases, expected, chunk=1500,
-                           preamble="\n".join(intern.defs))
+    # the model on the same cases.  One Coq file per chunk, each with its own table of strings (a shared table would
+    # put every name of the run into every file).
+    import concurrent.futures
+
+    size = 1200
+    chunks = [(lo, meta[lo:lo + size]) for lo in range(0, len(meta), size)]
+
+    def model_chunk(arg):
+        lo, part = arg
+        intern = StrIntern()
+        cases = [g_case(sb, spec, name, intern) for spec, name, _s, _e in part]
+        expected = [g_obs(s, intern) for _spec, _name, s, _e in part]
+        mm = ck.coq_mismatches(f"names{lo}", IMPORTS, "run_case", "obs_eqb", "case", "obs", cases, expected,
+                               chunk=len(cases), preamble="\n".join(intern.defs))
+        return [lo + i for i in mm]
+
+    with concurrent.futures.ThreadPoolExecutor(max_workers=8) as ex:
+        mm = sorted(i for part in ex.map(model_chunk, chunks) for i in part)
+    ck.model_cases = len(meta)
     ck.extra["model_mismatches"] = len(mm)
     for i in [j for j in mm if not meta[j][3]][:3]:
         spec, name, s, _ = meta[i]
